@@ -1197,9 +1197,19 @@ func (e *SpecEnv) callFunc(sfn *ssa.Function, fn *types.Func, args []Val) (Val, 
 			pre = append(pre, t)
 		}
 		bindResults(sub.vars, res, rt, sig)
+		// the callee's ghosts: the caller's ghost of the same name, if any (an instance of the
+		// universally quantified postcondition); clauses about other ghosts are not instantiated
+		for _, g := range c.Ghosts {
+			if gv, ok := vc.ghosts[g.Name]; ok {
+				sub.vars[g.Name] = gv
+			}
+		}
 		for _, en := range c.Ensures {
 			t, err := sub.evalBool(en.Expr)
 			if err != nil {
+				if len(c.Ghosts) > 0 && strings.Contains(err.Error(), "unknown identifier") {
+					continue
+				}
 				return Val{}, fmt.Errorf("ensures of %s: %v", key, err)
 			}
 			vc.assume(and(pre...), t)
